@@ -2796,7 +2796,10 @@ static PSymbolEntry FindNode(char const* Name_O, TempType SearchType) {
         NLS_UpString(Name);
     }
 
-    if (SectionStack) {
+    /* FORWARD announces a symbol as local to save the [section] suffix; a
+       reference that names a section explicitly keeps that section */
+
+    if (SectionStack && (DestSection == -2)) {
         if (PassNo <= MaxSymPass) {
             if (FindNode_FSpec(Name, SectionStack->LocSyms)) {
                 DestSection = MomSectionHandle;
